@@ -7,7 +7,7 @@ from vlib import core
 
 CASE = {"s": "smart", "r": "respect", "i": "ignore"}
 ALGO = {"1": "skim_v1", "2": "skim_v2", "c": "clangd"}
-SK = os.path.join(core.REPO, "target", "release", "sk")
+SK = core.SK_BIN
 
 
 def dec(s):
@@ -25,10 +25,7 @@ def usable(query, texts):
 
 
 def build():
-    with core.Lock("cargo"):
-        rc, out = core.sh(["cargo", "build", "--release", "--offline"], cwd=core.REPO)
-    if rc != 0:
-        raise core.BuildError("sk-release-build", out[-4000:])
+    core.build_sk()
 
 
 def check(prop, seed, items):
